@@ -780,6 +780,14 @@ pub fn gen_run(rng: &mut Rng, c: &Corpus, focus: &str) -> IoRun {
         _ => rng.range(1, 6),
     } as usize;
     for i in 0..npool {
+        if i == 0 && focus == "C03" && rng.chance(1, 40) {
+            // nothing has been encoded on this thread yet
+            run.pool.push(PoolOp {
+                op: EOp::ZeroizedCopyEncoded(0),
+                full_check: false,
+            });
+            continue;
+        }
         run.pool.push(pool_op(rng, c, &sw, i, focus));
     }
     let nf = match focus {
